@@ -27,7 +27,7 @@ def _read_msg(lines, i):
     f = lines[i].split(); i += 1
     assert f[0] == 'M', f
     kind = f[1]
-    if kind in ('EXEC', 'GROUPPROP', 'GOVPROP'):
+    if kind in ('EXEC', 'GROUPPROP', 'GOVPROP', 'GOVSUB'):
         n = int(f[2]); sub = []
         for _ in range(n):
             m, i = _read_msg(lines, i); sub.append(m)
@@ -47,11 +47,13 @@ def parse_ops(path):
             n = int(f[8]); i += 1
             for _ in range(n):
                 g = lines[i].split(); cur['gvals'].append((int(g[1]), int(g[2]), int(g[3]))); i += 1
+        elif f[0] == 'ADMIN':
+            cur['govadmin'] = len(f) > 1 and f[1] == 'gov'; i += 1
         elif f[0] == 'RESTART':
             restart = True; i += 1
         elif f[0] == 'BLOCK':
             b = dict(dt=int(f[1]), votes=[], txs=[], evid=[], restart=restart); restart = False
-            nv, nt = int(f[2]), int(f[3]); ne = int(f[4]) if len(f) > 4 else 0; i += 1
+            nv, nt = int(f[2]), int(f[3]); ne = int(f[4]) if len(f) > 4 else 0; ng = int(f[5]) if len(f) > 5 else 0; i += 1
             for _ in range(nv):
                 v = lines[i].split(); b['votes'].append((int(v[1]), int(v[2]), v[3] == '1')); i += 1
             for _ in range(ne):
@@ -63,10 +65,27 @@ def parse_ops(path):
                 for _ in range(int(t[2])):
                     m, i = _read_msg(lines, i); tx['msgs'].append(m)
                 b['txs'].append(tx)
+            # proposals x/gov's EndBlocker executed in this block: their messages are sent by the gov account — the admin
+            # of such a chain — so they are listed as transactions of the admin, after the block's own (their results follow
+            # the transactions' in the TXR lines)
+            for _ in range(ng):
+                g = lines[i].split(); assert g[0] == 'GOV', lines[i]; i += 1
+                tx = dict(signer=-1, msgs=[], gov=True)
+                for _ in range(int(g[1])):
+                    m, i = _read_msg(lines, i); tx['msgs'].append(m)
+                b['txs'].append(tx)
             assert lines[i] == 'ENDBLOCK', lines[i]; i += 1
             cur['blocks'].append(b)
         elif f[0] == 'END':
             cur['raw'] = lines[cur['start']:i+1]
+            if cur.get('govadmin'):
+                # the admin of this history is the x/gov account: what the gov-executed proposals (listed as the admin's
+                # transactions) do is the admin's doing; the account of the environment override (signer -1) is an ordinary
+                # account here
+                for b in cur['blocks']:
+                    for tx in b['txs']:
+                        if tx['signer'] == -1 and not tx.get('gov'):
+                            tx['signer'] = -2
             hs.append(cur); cur = None; i += 1
         else:
             raise ValueError(lines[i])
@@ -422,7 +441,7 @@ def oracle_C14(hi, ops, obs):
             if tx['signer'] != -1 or len(tx['msgs']) != 1 or tx['msgs'][0].kind != 'SETPOWER': continue
             m = tx['msgs'][0]; op = int(m.args[0]); P = int(m.args[1])
             if res == 'sdk:32': continue
-            if op >= 0 and P < PR and res != 'poa:2':
+            if op >= 0 and P < PR and (res == 'ok' if tx.get('gov') else res != 'poa:2'):
                 out.append(Viol(hi, b['h'], 'below-minimum-not-rejected', f"tx {i} power {P} -> {res}"))
             if op >= 0 and P >= 2**63 and res == 'ok':
                 out.append(Viol(hi, b['h'], 'int64-overflow-accepted', f"tx {i} power {P}"))
